@@ -167,17 +167,41 @@ ExpectedSeq(g, q) ==
 \* the generator's promise that makes ExpectedSeq well defined
 OrderWellDefined(g, q) ==
   LET P == Passing(g, q) IN
-  /\ \A b \in P : SortKeyOf(g, q, b).t = "int"
-  /\ \A b1, b2 \in P : b1 # b2 => SortKeyOf(g, q, b1) # SortKeyOf(g, q, b2)
+  IF Len(q.order) = 1
+  THEN /\ \A b \in P : SortKeyOf(g, q, b).t = "int"
+       /\ \A b1, b2 \in P : b1 # b2 => SortKeyOf(g, q, b1) # SortKeyOf(g, q, b2)
+  ELSE \* several keys: integers or NULL, the last one a unique integer; no window
+       LET n == Len(q.order) IN
+       /\ q.skip = 0 /\ q.limit < 0
+       /\ \A b \in P : \A j \in 1..n : Eval(g, b, q.order[j].e).t \in {"int", "null"}
+       /\ \A b \in P : Eval(g, b, q.order[n].e).t = "int"
+       /\ \A b1, b2 \in P : b1 # b2 => Eval(g, b1, q.order[n].e) # Eval(g, b2, q.order[n].e)
 \* unordered SKIP/LIMIT: any sub-bag of the right size
 QSubBag(a, b) == \A r \in DOMAIN a : r \in DOMAIN b /\ a[r] <= b[r]
 QBagSize(a) == LET RECURSIVE S(_) S(D) == IF D = {} THEN 0 ELSE LET r == CHOOSE r \in D : TRUE IN a[r] + S(D \ {r}) IN S(DOMAIN a)
 QMin2(a, b) == IF a < b THEN a ELSE b
 WindowSize(n, q) == LET rest == IF n > q.skip THEN n - q.skip ELSE 0 IN IF q.limit < 0 THEN rest ELSE QMin2(rest, q.limit)
 
+\* ORDER BY with several keys (no SKIP / LIMIT): the keys are returned columns (q.okcols gives their positions), integers or
+\* NULL (a missing property), the last one unique and never NULL.  The rows are the expected bag, arranged so that they
+\* are sorted lexicographically by the keys with NULL = NULL a tie that the next key decides; where NULLs go relative to
+\* values is left open (first or last, per key) - the property text does not fix it.
+KeyCell(q, row, j) == row[q.okcols[j]]
+RECURSIVE BeforeFrom(_, _, _, _, _)
+BeforeFrom(q, nf, x, y, j) ==      \* x must come strictly before y, looking at keys j..
+  IF j > Len(q.order) THEN FALSE
+  ELSE LET a == KeyCell(q, x, j)  b == KeyCell(q, y, j) IN
+       IF IsNull(a) /\ IsNull(b) THEN BeforeFrom(q, nf, x, y, j + 1)
+       ELSE IF IsNull(a) THEN nf[j]
+       ELSE IF IsNull(b) THEN ~nf[j]
+       ELSE IF a.v = b.v THEN BeforeFrom(q, nf, x, y, j + 1)
+       ELSE IF q.order[j].desc THEN a.v > b.v ELSE a.v < b.v
+MultiOrderOk(g, q, rows) ==
+  /\ QBagOfSeq(rows) = ExpectedBag(g, q)
+  /\ \E nf \in [1..Len(q.order) -> BOOLEAN] : \A i \in 1..(Len(rows) - 1) : ~BeforeFrom(q, nf, rows[i + 1], rows[i], 1)
 \* rows as returned by the engine: sequences of tagged values
 Agrees(g, q, rows) ==
-  IF Ordered(q) THEN rows = ExpectedSeq(g, q)
+  IF Ordered(q) THEN (IF Len(q.order) = 1 THEN rows = ExpectedSeq(g, q) ELSE MultiOrderOk(g, q, rows))
   ELSE IF q.skip > 0 \/ q.limit >= 0
        THEN LET full == ExpectedBag(g, q) got == QBagOfSeq(rows) IN QSubBag(got, full) /\ Len(rows) = WindowSize(QBagSize(full), q)
        ELSE QBagOfSeq(rows) = ExpectedBag(g, q)
